@@ -23,21 +23,24 @@ def U32_MAX : Nat := 2 ^ 32 - 1
 /-! ## finite maps as association lists -/
 
 /-- Value of a `Nat`-valued map at `k`: the sum of all entries for `k` (keys are unique in
-    every reachable map, `set` keeps them so; the sum form needs no uniqueness invariant). -/
-def getN {κ : Type} [DecidableEq κ] (m : List (κ × Nat)) (k : κ) : Nat :=
-  ((m.filter (fun e => e.1 = k)).map (·.2)).sum
+    every reachable map, `setN` keeps them so; the sum form needs no uniqueness invariant). -/
+def getN {κ : Type} [DecidableEq κ] : List (κ × Nat) → κ → Nat
+  | [], _ => 0
+  | e :: m, k => (if e.1 = k then e.2 else 0) + getN m k
+
+def erase {κ α : Type} [DecidableEq κ] : List (κ × α) → κ → List (κ × α)
+  | [], _ => []
+  | e :: m, k => if e.1 = k then erase m k else e :: erase m k
 
 def setN {κ : Type} [DecidableEq κ] (m : List (κ × Nat)) (k : κ) (v : Nat) : List (κ × Nat) :=
-  (k, v) :: m.filter (fun e => e.1 ≠ k)
+  (k, v) :: erase m k
 
-def lookup {κ α : Type} [DecidableEq κ] (m : List (κ × α)) (k : κ) : Option α :=
-  (m.find? (fun e => e.1 = k)).map (·.2)
+def lookup {κ α : Type} [DecidableEq κ] : List (κ × α) → κ → Option α
+  | [], _ => none
+  | e :: m, k => if e.1 = k then some e.2 else lookup m k
 
 def insert {κ α : Type} [DecidableEq κ] (m : List (κ × α)) (k : κ) (v : α) : List (κ × α) :=
-  (k, v) :: m.filter (fun e => e.1 ≠ k)
-
-def erase {κ α : Type} [DecidableEq κ] (m : List (κ × α)) (k : κ) : List (κ × α) :=
-  m.filter (fun e => e.1 ≠ k)
+  (k, v) :: erase m k
 
 /-! ## state -/
 
@@ -211,10 +214,16 @@ def chanPrefix (c : Nat) : String := s!"transfer/channel-{c}/"
 /-- `trace.has_leading_port("transfer") && trace.has_leading_channel("channel-c")`. -/
 def hasLeading (asset : String) (c : Nat) : Bool := asset.startsWith (chanPrefix c)
 
-/-- `utils::fee`: `base.saturating_add(size.saturating_mul(mult))`. -/
+/-- `utils::fee` as in the pinned source: `base.saturating_add(size.saturating_mul(mult))`
+    (DESIGN §7 F5). -/
 def satMul128 (a b : Nat) : Nat := min (a * b) U128_MAX
 def satAdd128 (a b : Nat) : Nat := min (a + b) U128_MAX
-def feeAmount (cfg : FeeCfg) (size : Nat) : Nat := satAdd128 cfg.base (satMul128 size cfg.mult)
+def feeAmountOriginal (cfg : FeeCfg) (size : Nat) : Nat := satAdd128 cfg.base (satMul128 size cfg.mult)
+
+/-- `utils::fee` (as repaired): `size.checked_mul(mult).and_then(|v| base.checked_add(v))`;
+    `none` = the fee does not fit into a `u128`, the action fails. -/
+def feeAmount (cfg : FeeCfg) (size : Nat) : Option Nat :=
+  if cfg.base + size * cfg.mult ≤ U128_MAX then some (cfg.base + size * cfg.mult) else none
 
 /-- `pay_fee` for an action kind that carries a fee asset. -/
 def feePlan (s : State) (k : Kind) (size : Nat) (feeAsset signer : String) (pos : Nat) :
@@ -223,7 +232,9 @@ def feePlan (s : State) (k : Kind) (size : Nat) (feeAsset signer : String) (pos 
   | none => none                                         -- action disabled
   | some cfg =>
     if feeAsset ∉ s.feeAssets then none
-    else some [.blockFee feeAsset (feeAmount cfg size) pos, .debit signer feeAsset (feeAmount cfg size)]
+    else match feeAmount cfg size with
+      | none => none
+      | some fee => some [.blockFee feeAsset fee pos, .debit signer feeAsset fee]
 
 def assetDisplayLen (a : String) : Nat := a.length
 
@@ -286,22 +297,30 @@ def mutableOk (s : State) (signer : String) : Action → Bool
         | none => false)
     | none => !isBridge s signer
 
+def bridgeAsset (s : State) (b : String) : String :=
+  match lookup s.bridges b with | some acct => acct.asset | none => ""
+
+def bridgeRollup (s : State) (b : String) : Nat :=
+  match lookup s.bridges b with | some acct => acct.rollup | none => 0
+
+/-- Recording the rollup's withdrawal event (only for withdrawals made on behalf of a bridge). -/
+def wdEffects (bridge : Option String) (id : String) (blk : Nat) : List Effect :=
+  match bridge with | some b => [.recordWd b id blk] | none => []
+
 /-- What `execute` does after its mutable checks passed. -/
 def actionEffects (s : State) (signer : String) (pos : Nat) : Action → List Effect
   | .transfer to asset amount _ => [.debit signer asset amount, .credit to asset amount]
   | .rollup _ _ => []
   | .lock to asset amount _ destLen =>
-    let rollup := match lookup s.bridges to with | some b => b.rollup | none => 0
     [.debit signer asset amount, .credit to asset amount,
-     .deposit ⟨to, rollup, asset, amount, destLen, pos⟩]
+     .deposit ⟨to, bridgeRollup s to, asset, amount, destLen, pos⟩]
   | .unlock to bridge amount _ id blk =>
-    let asset := match lookup s.bridges bridge with | some b => b.asset | none => ""
-    [.debit bridge asset amount, .credit to asset amount, .recordWd bridge id blk]
+    [.debit bridge (bridgeAsset s bridge) amount, .credit to (bridgeAsset s bridge) amount,
+     .recordWd bridge id blk]
   | .bridgeTransfer to bridge amount _ id blk destLen =>
-    let asset := match lookup s.bridges bridge with | some b => b.asset | none => ""
-    let rollup := match lookup s.bridges to with | some b => b.rollup | none => 0
-    [.debit bridge asset amount, .credit to asset amount,
-     .deposit ⟨to, rollup, asset, amount, destLen, pos⟩, .recordWd bridge id blk]
+    [.debit bridge (bridgeAsset s bridge) amount, .credit to (bridgeAsset s bridge) amount,
+     .deposit ⟨to, bridgeRollup s to, bridgeAsset s bridge, amount, destLen, pos⟩,
+     .recordWd bridge id blk]
   | .initBridge rollup asset _ sudo wd =>
     [.initBridge signer rollup asset (sudo.getD signer) (wd.getD signer)]
   | .bridgeSudo bridge newSudo newWd _ disable =>
@@ -318,7 +337,7 @@ def actionEffects (s : State) (signer : String) (pos : Nat) : Action → List Ef
   | .valUpdate key power => [.valUpdate key power]
   | .ics20 amount denom chan _ bridge id blk _ =>
     let from_ := bridge.getD signer
-    (match bridge with | some b => [.recordWd b id blk] | none => []) ++
+    wdEffects bridge id blk ++
     [.debit from_ denom amount] ++
     (if !hasLeading denom chan then [.escAdd chan denom amount] else [])
 
@@ -335,11 +354,13 @@ def feeInfo : Action → Option (Kind × Nat × String)
   | _ => none
 
 /-- `CheckedAction::pay_fees_and_execute`: pay the fee, re-run the mutable checks, execute. -/
+def feeEffects (s : State) (signer : String) (pos : Nat) (a : Action) : Option (List Effect) :=
+  match feeInfo a with
+  | some (k, size, fa) => feePlan s k size fa signer pos
+  | none => some []
+
 def execAction (s : State) (signer : String) (pos : Nat) (a : Action) : Option State :=
-  let feeFx := match feeInfo a with
-    | some (k, size, fa) => feePlan s k size fa signer pos
-    | none => some []
-  match feeFx with
+  match feeEffects s signer pos a with
   | none => none
   | some fx =>
     match applyEffects s fx with
@@ -410,30 +431,37 @@ structure RecvPacket where
 def depositDestLen : Nat := 11   -- "rollup-dest"
 def refundDestLen : Nat := 13    -- "rollup-return"
 
+/-- The asset as it is known on the sequencer: an asset coming home loses the counterparty's
+    (port, channel) prefix, a foreign asset gains the receiving channel's. -/
+def recvAsset (p : RecvPacket) : String :=
+  if hasLeading p.denom p.srcChan then (p.denom.drop (chanPrefix p.srcChan).length).toString
+  else chanPrefix p.dstChan ++ p.denom
+
+/-- `emit_bridge_lock_deposit` for a bridge-account recipient (`some []` for a plain account). -/
+def recvDeposit (s : State) (rcpt asset : String) (p : RecvPacket) : Option (List Effect) :=
+  match lookup s.bridges rcpt with
+  | none => some []
+  | some b =>
+    if b.disabled then none
+    else if p.memo ≠ .deposit then none
+    else if b.asset ≠ asset then none
+    else some [.deposit ⟨rcpt, b.rollup, asset, p.amount, depositDestLen, 0⟩]
+
+/-- Release from escrow (asset coming home) or register the new denomination, then credit. -/
+def recvMoves (p : RecvPacket) (rcpt asset : String) : List Effect :=
+  (if hasLeading p.denom p.srcChan then [.escSub p.dstChan asset p.amount] else [.registerAsset asset]) ++
+  [.credit rcpt asset p.amount]
+
 /-- The effect list of `receive_tokens`, in the order of the Rust code; `none` = an error
     before anything was written. -/
 def recvPlan (s : State) (p : RecvPacket) : Option (List Effect) :=
   match p.receiver with
   | none => none
   | some rcpt =>
-    let isSource := hasLeading p.denom p.srcChan
-    let asset := if isSource then (p.denom.drop (chanPrefix p.srcChan).length).toString
-                 else chanPrefix p.dstChan ++ p.denom
-    if s.postBlackburn && asset ∉ s.feeAssets then none
-    else
-      let dep : Option (List Effect) := match lookup s.bridges rcpt with
-        | none => some []
-        | some b =>
-          if b.disabled then none
-          else if p.memo ≠ .deposit then none
-          else if b.asset ≠ asset then none
-          else some [.deposit ⟨rcpt, b.rollup, asset, p.amount, depositDestLen, 0⟩]
-      match dep with
+    if s.postBlackburn && recvAsset p ∉ s.feeAssets then none
+    else match recvDeposit s rcpt (recvAsset p) p with
       | none => none
-      | some depFx =>
-        some (depFx ++
-          (if isSource then [.escSub p.dstChan asset p.amount] else [.registerAsset asset]) ++
-          [.credit rcpt asset p.amount])
+      | some depFx => some (depFx ++ recvMoves p rcpt (recvAsset p))
 
 /-- `recv_packet_execute` (as repaired): `receive_tokens` runs in a nested delta which is
     applied only on success; the error is turned into an error acknowledgement. Returns
@@ -466,24 +494,27 @@ structure RefundPacket where
   memo : Memo
   deriving DecidableEq, Repr
 
+/-- `emit_deposit` for a refund of a withdrawal that came from a rollup. -/
+def refundDeposit (s : State) (rcpt : String) (p : RefundPacket) : Option (List Effect) :=
+  if p.memo = .fromRollup then
+    match lookup s.bridges rcpt with
+    | none => none
+    | some b => if b.asset ≠ p.denom then none
+                else some [.deposit ⟨rcpt, b.rollup, p.denom, p.amount, refundDestLen, 0⟩]
+  else some []
+
+def refundMoves (p : RefundPacket) (rcpt : String) : List Effect :=
+  (if !hasLeading p.denom p.srcChan then [.escSub p.srcChan p.denom p.amount] else []) ++
+  [.credit rcpt p.denom p.amount]
+
 /-- `refund_tokens` (timeout, or acknowledgement carrying an error). -/
 def refundPlan (s : State) (p : RefundPacket) : Option (List Effect) :=
   match p.sender with
   | none => none
   | some rcpt =>
-    let dep : Option (List Effect) :=
-      if p.memo = .fromRollup then
-        match lookup s.bridges rcpt with
-        | none => none
-        | some b => if b.asset ≠ p.denom then none
-                    else some [.deposit ⟨rcpt, b.rollup, p.denom, p.amount, refundDestLen, 0⟩]
-      else some []
-    match dep with
+    match refundDeposit s rcpt p with
     | none => none
-    | some depFx =>
-      some (depFx ++
-        (if !hasLeading p.denom p.srcChan then [.escSub p.srcChan p.denom p.amount] else []) ++
-        [.credit rcpt p.denom p.amount])
+    | some depFx => some (depFx ++ refundMoves p rcpt)
 
 /-- `timeout_packet_execute` / `acknowledge_packet_execute` with a failed acknowledgement: an
     error fails the surrounding action, whose delta is dropped. -/
@@ -506,13 +537,15 @@ def applyValUpdates (vals : List (String × Nat)) : List (String × Nat) → Lis
   | [] => vals
   | (k, p) :: rest => applyValUpdates (if p = 0 then erase vals k else insert vals k p) rest
 
+/-- pre-Aspen: `AuthorityComponent::end_block` applies the block's updates to the stored set. -/
+def authorityEndBlock (s : State) : State :=
+  if s.postAspen then s else { s with vals := applyValUpdates s.vals s.valUpdates }
+
 /-- `App::end_block` followed by commit. Returns the validator updates handed to CometBFT and
     whether `end_block` succeeded; the ephemeral per-block data is cleared by the commit. -/
 def endBlock (s : State) : Bool × List (String × Nat) × State :=
   let updates := s.valUpdates
-  -- pre-Aspen: AuthorityComponent::end_block applies the block's updates to the stored set
-  let s1 := if s.postAspen then s else { s with vals := applyValUpdates s.vals updates }
-  let s2 := { s1 with valUpdates := [] }
+  let s2 := { authorityEndBlock s with valUpdates := [] }
   match payFees s2 s2.blockFees with
   | some s3 => (true, updates, { s3 with blockFees := [], deposits := [] })
   | none => (false, [], { s with blockFees := [], deposits := [] })
